@@ -143,6 +143,9 @@ Proof.
   - cbn [indir1]. destruct (nil_is_pointer nf); reflexivity.
 Qed.
 
+Lemma copy_settable : forall x, settable (fst (copy true x)) = true.
+Proof. intros x. apply nonil_settable, copy_nonil. Qed.
+
 Lemma copy_never_panics : forall x pk, snd (copy true x) <> Panic pk.
 Proof.
   intros x pk. unfold copy, copy_to. destruct x; try (simpl; discriminate).
@@ -156,11 +159,58 @@ Lemma copy_to_equal : forall o f es od df des, df <> FVal ->
   fresh_es (cpy es) = true.
 Proof.
   intros o f es od df des Hdf. repeat split.
-  - unfold copy_to. cbn [indir1]. destruct df; [congruence| |]; reflexivity.
+  - unfold copy_to. cbn [indir1 negb andb]. destruct df; [congruence| |]; reflexivity.
   - exists (hold_of df). unfold same_tree. rewrite !abs_map. cbn [root_entries].
     rewrite !strip_map. f_equal. rewrite abs_cpy. unfold strip_es. rewrite map_map.
     apply map_ext. intros [k v]. simpl. now rewrite strip_idem.
   - apply fresh_cpy.
+Qed.
+
+(* ... from every source that is a map (a nil one is an empty one) into every
+   destination there is a pointer to: a map held by pointer is emptied and
+   filled, a pointer to a nil map gets the map made for it *)
+Definition src_entries (x : any) : entries := match x with AMap _ _ es => es | _ => [] end.
+
+Lemma copy_to_result : forall src dst, is_map src = true -> fillable dst = true ->
+  exists o f, copy_to true src dst = (AMap o f (cpy (src_entries src)), Ok tt) /\
+              (forall od df des, dst = AMap od df des -> o = od /\ f = df).
+Proof.
+  intros src dst Hs Hd.
+  assert (HD : forall es, exists o f,
+    match indir2 true dst with
+    | Err e => (dst, Err e)
+    | Panic p => (dst, Panic p)
+    | Ok mdst =>
+      match (match mdst with Some _ => Some dst | None => made true dst end) with
+      | None => (dst, Ok tt)
+      | Some d => (with_entries d (cpy es), Ok tt)
+      end
+    end = (AMap o f (cpy es), Ok tt) /\
+    (forall od df des, dst = AMap od df des -> o = od /\ f = df)).
+  { intros es. destruct dst as [| | | | |od df des|nf]; try discriminate.
+    - destruct df; [discriminate| |]; do 2 eexists; (split; [reflexivity|]);
+        intros ? ? ? E; inversion E; auto.
+    - destruct nf; try discriminate; do 2 eexists; (split; [reflexivity|]); intros ? ? ? E; discriminate. }
+  unfold copy_to.
+  destruct src as [| | | | |o f es|nf]; try discriminate.
+  - cbn [indir1 negb andb src_entries]. apply HD.
+  - cbn [indir1 src_entries]. destruct (nil_is_pointer nf); cbn [negb andb]; apply (HD []).
+Qed.
+
+Lemma copy_to_any : forall src dst, is_map src = true -> fillable dst = true ->
+  snd (copy_to true src dst) = Ok tt /\
+  copy_of (abs src) (abs (fst (copy_to true src dst))) /\
+  fresh_es (src_entries (fst (copy_to true src dst))) = true.
+Proof.
+  intros src dst Hs Hd.
+  destruct (copy_to_result src dst Hs Hd) as [o [f [E _]]]. rewrite E. cbn [fst snd src_entries].
+  split; [reflexivity|]. split; [|apply fresh_cpy].
+  exists (hold_of f). unfold same_tree. rewrite abs_map, !strip_map. f_equal.
+  rewrite abs_cpy.
+  assert (Hr : root_entries (abs src) = abs_es (src_entries src)).
+  { destruct src; try discriminate; [now rewrite abs_map|reflexivity]. }
+  rewrite Hr. unfold strip_es. rewrite map_map.
+  apply map_ext. intros [k v]. simpl. now rewrite strip_idem.
 Qed.
 
 (* ---------- Reset ---------- *)
@@ -184,27 +234,29 @@ Qed.
 Lemma reset_in_place : forall o f es, fst (reset true (AMap o f es)) = AMap o f [].
 Proof. reflexivity. Qed.
 
-Lemma reset_nonil : forall x, nonil x = true -> nonil (fst (reset true x)) = true.
-Proof. intros x H. unfold reset. destruct x; auto. discriminate. Qed.
+Lemma reset_settable : forall x, settable x = true -> settable (fst (reset true x)) = true.
+Proof.
+  intros x H. unfold reset. destruct x; auto. cbn [indir1]. destruct (nil_is_pointer nf); auto.
+Qed.
 
 (* ---------- histories ---------- *)
-Lemma step_abs : forall x o, nonil x = true -> op_ok o = true ->
-  abs (step true x o) = tstep (abs x) o /\ nonil (step true x o) = true.
+Lemma step_abs : forall x o, settable x = true -> op_ok o = true ->
+  abs (step true x o) = tstep (abs x) o /\ settable (step true x o) = true.
 Proof.
   intros x o Hx Ho. destruct o as [p v| | | | | | |]; cbn [step tstep]; auto.
-  - split; [|now apply set_nonil].
+  - split; [|now apply set_settable].
     destruct p as [|k rest]; [reflexivity|].
     pose proof (set_exact (k :: rest) x v Hx ltac:(congruence)) as S.
     destruct (tset (abs x) (k :: rest) (stored (abs v))) as [t'|].
     + destruct S as [x' [E Ha]]. now rewrite E.
     + now rewrite S.
-  - split; [apply copy_abs|apply copy_nonil].
-  - split; [apply reset_abs|now apply reset_nonil].
+  - split; [apply copy_abs|apply copy_settable].
+  - split; [apply reset_abs|now apply reset_settable].
 Qed.
 
-Theorem history_abs : forall ops x, nonil x = true -> forallb op_ok ops = true ->
+Theorem history_abs : forall ops x, settable x = true -> forallb op_ok ops = true ->
   abs (fold_left (step true) ops x) = fold_left tstep ops (abs x) /\
-  nonil (fold_left (step true) ops x) = true.
+  settable (fold_left (step true) ops x) = true.
 Proof.
   induction ops as [|o r IH]; intros x Hx Hops; [auto|].
   simpl in Hops. apply andb_prop in Hops. destruct Hops as [Ho Hr].
